@@ -7,7 +7,7 @@
     recorded denomination, amount and depositor.  Outside the model: that the chain's
     distribution module accepts the message (it is applied by the harness as a bank transfer to
     the community-pool account after an independent `prost` decode). *)
-From FM Require Import WireFacts.
+From FM Require Import WireFacts ReentrantFees.
 
 (** [charged d m sender s]: what message [m] charges in denomination [d] — nothing unless it is
     a purchase, then floor(0.5 %) of the amount in the fee denomination on each side (C06).
@@ -34,6 +34,18 @@ Theorem C10_fee_ledger_step : forall w o d,
   bank w (pool_addr w) d + pending d (market w) + (if ok (snd (step w o)) then charged_op d w o else 0).
 Proof. exact step_pool_ledger. Qed.
 Print Assumptions C10_fee_ledger_step.
+
+(** With a hostile token contract re-entering the marketplace during dispatch (model/Reentry.v):
+    [gap d w] is what the pool holds plus what is pending; [rstep_charged d w o prog] is what the
+    transaction charges — its own purchase plus the purchases among the re-entrant calls, each
+    evaluated at the world in which it happens.  The equation needs no backing ([sound] is [good]
+    without it), so it holds at the intermediate points as well. *)
+Theorem C10_fee_ledger_with_reentry : forall w o prog d,
+  sound w -> reg_clean_pool w -> kind w (pool_addr w) = KUser ->
+  quiet_outsider w o -> Forall (quiet_outsider w) prog ->
+  gap d (fst (rstep w o prog)) = gap d w + (if ok (snd (rstep w o prog)) then rstep_charged d w o prog else 0).
+Proof. exact rstep_pool_ledger. Qed.
+Print Assumptions C10_fee_ledger_with_reentry.
 
 (** Contract-local form, for every message from every state satisfying the invariant. *)
 Theorem C10_fee_conservation : forall d o e sender fs m s s' out,
